@@ -43,6 +43,10 @@ type Harness struct {
 	RunTimeout time.Duration
 	// NoBubble runs the harness without a synctest bubble (harnesses with no goroutines, timers or clocks of their own).
 	NoBubble bool
+	// MinimizeReps > 1: a reduced trace is kept by the minimiser only if it shows the same violation
+	// class in that many consecutive replays (for systems under test whose behaviour depends on an
+	// unseeded source such as Go map iteration order). 0 or 1 = one replay decides.
+	MinimizeReps int
 	// Real lists what is real code / what is stubbed, for the evidence file.
 	Real, Stub []string
 	// Assumptions for the evidence file.
